@@ -87,21 +87,25 @@ impl VIOT {
     }
 
     pub fn add_virtio_pci_iommu(&mut self, iommu: VirtIoPciIommu) -> TranslationHandle {
-        let old_offset = self.handle_offset;
+        // a handle is a 16-bit offset from the start of the table: refuse before adding
+        let handle = TranslationHandle(
+            u16::try_from(self.handle_offset).expect("VIOT node offset must fit in 16 bits"),
+        );
         self.update_header(iommu.u8sum(), VirtIoPciIommu::len() as u32);
         self.handle_offset += VirtIoPciIommu::len();
         self.nodes.push(Box::new(iommu));
-        // a handle is a 16-bit offset from the start of the table
-        TranslationHandle(u16::try_from(old_offset).expect("VIOT node offset must fit in 16 bits"))
+        handle
     }
 
     pub fn add_virtio_mmio_iommu(&mut self, iommu: VirtIoMmioIommu) -> TranslationHandle {
-        let old_offset = self.handle_offset;
+        // a handle is a 16-bit offset from the start of the table: refuse before adding
+        let handle = TranslationHandle(
+            u16::try_from(self.handle_offset).expect("VIOT node offset must fit in 16 bits"),
+        );
         self.update_header(iommu.u8sum(), VirtIoMmioIommu::len() as u32);
         self.handle_offset += VirtIoMmioIommu::len();
         self.nodes.push(Box::new(iommu));
-        // a handle is a 16-bit offset from the start of the table
-        TranslationHandle(u16::try_from(old_offset).expect("VIOT node offset must fit in 16 bits"))
+        handle
     }
 }
 
